@@ -32,7 +32,7 @@ Print Assumptions C09_returned_message.
 Theorem C09_fill_defaults_spec : forall r m,
   m_code (fill_defaults r m) = Some (match m_code m with Some c => c | None => default_code (r_code r) end) /\
   m_payload (fill_defaults r m) = m_payload m /\ m_cf (fill_defaults r m) = m_cf m /\
-  m_nr (fill_defaults r m) = match m_nr m with Some n => Some n | None => r_nr r end.
+  m_nr (fill_defaults r m) = match m_nr m with Some n => Some n | None => r_nr r end /\ m_obs (fill_defaults r m) = m_obs m.
 Proof. exact fill_defaults_spec. Qed.
 Print Assumptions C09_fill_defaults_spec.
 Theorem C09_default_code_table : forall c,
@@ -60,8 +60,47 @@ Theorem C09_bare_500 : forall s r methods, handled s r methods -> yields_bare_50
   final_message (Some s) r = Some bare_500.
 Proof. exact bare_500_table. Qed.
 Print Assumptions C09_bare_500.
-(* the table is total for resources built on resource.Resource *)
-Theorem C09_final_message_total : forall srv r, not_raw srv r -> exists m, final_message srv r = Some m.
+(* ---- Observe=0 to an observable resource (interfaces.ObservableResource._render_to_pipe), with its case split:
+   add_observation raising -> that exception rendered as usual; observation accepted (also when deregistered early) -> the
+   plain table, unless the observation gets established (then the first response is NOT final: C08 takes over);
+   observation DECLINED -> a returned message is final as usual, but every exception out of the handler (renderable
+   errors and 4.05 included) is replaced by the AttributeError of `finally: servobs._cancellation_callback()`: bare 5.00.
+   That last case contradicts "a raised renderable error is sent with its own code and diagnostic payload":
+   open finding C09:declined-observation:error-replaced-by-500 (witness: C09_declined_observation_refuted) *)
+Theorem C09_plain_final_message : forall s r methods, plain_methods s r = Some methods ->
+  final_message (Some s) r = plain_final methods r.
+Proof. exact plain_final_message. Qed.
+Print Assumptions C09_plain_final_message.
+Theorem C09_observable_final_message : forall s r methods mode,
+  find_resource s (r_path r) = Some (Observable methods mode) -> observing r = true ->
+  final_message (Some s) r =
+    match mode with
+    | ORaise e => final_of_exc e
+    | ODecline => match render methods r with Responded m => Some m | Raised _ => Some bare_500 end
+    | _ => if establishes methods mode r then None else plain_final methods r
+    end.
+Proof. exact observable_final_message. Qed.
+Print Assumptions C09_observable_final_message.
+Theorem C09_observable_established : forall s r methods mode,
+  find_resource s (r_path r) = Some (Observable methods mode) -> observing r = true -> establishes methods mode r = true ->
+  exists m, render methods r = Responded m /\ is_successful (code_of_msg m) = true /\ mode = OAccept /\
+            run_ractions live (respond (Some s) r) = (live, [Send (set_obs m (Some 0)) false], 0).
+Proof. exact observable_established. Qed.
+Print Assumptions C09_observable_established.
+Definition obs_site (mode : obs_mode) : site := [([1], Observable [GET; FETCH] mode)].
+Definition obs_request (o : outcome) : request :=
+  {| r_id := 0; r_remote := 0; r_token := [1]; r_mid := 7; r_con := true; r_code := GET; r_path := [1]; r_nr := None;
+     r_obs := Some 0; r_slow := false; r_outcome := o |}.
+Theorem C09_declined_observation_refuted :
+  let r := obs_request (Raise_ (cre E_BadRequest (CText [100]))) in
+  final_message (Some (obs_site OAccept)) r = Some (mk_msg 128 [100]) /\     (* accepted: the error's own code and text *)
+  final_message (Some (obs_site ODecline)) r = Some bare_500 /\              (* declined: replaced by a bare 5.00 *)
+  finalising (Some (obs_site ODecline)) r.
+Proof. cbv zeta. split; [reflexivity|]. split; [reflexivity|]. cbn. reflexivity. Qed.
+Print Assumptions C09_declined_observation_refuted.
+
+(* the table is total for every finalising rendering: not a resource with its own render_to_pipe, not an observation being established *)
+Theorem C09_final_message_total : forall srv r, finalising srv r -> exists m, final_message srv r = Some m.
 Proof. exact final_message_total. Qed.
 Print Assumptions C09_final_message_total.
 
@@ -82,10 +121,10 @@ Print Assumptions C09_pipe_two_states.
 Theorem C09_pipe_model_closed : forall l, ~ In (Log LogUnmodelled) (snd (prun live l)).
 Proof. exact pipe_model_closed. Qed.
 Print Assumptions C09_pipe_model_closed.
-(* the rendering of a request on a resource.Resource puts exactly its final message on the pipes, once, and ends them *)
-Theorem C09_coroutine_final_once : forall srv r, not_raw srv r ->
-  exists m logs n, final_message srv r = Some m /\
-                   run_ractions live (respond srv r) = (ended, map Log logs ++ [Send m true], n).
+(* a finalising rendering puts exactly its final message on the pipes, once, and ends them *)
+Theorem C09_coroutine_final_once : forall srv r, finalising srv r ->
+  exists m acts n, final_message srv r = Some m /\
+                   run_ractions live (respond srv r) = (ended, acts, n) /\ filter is_send acts = [Send m true].
 Proof. exact coroutine_final_once. Qed.
 Print Assumptions C09_coroutine_final_once.
 
@@ -100,7 +139,7 @@ Print Assumptions C09_at_most_one_final.
    (other requests with other tokens arriving, finishing, failing; time; ACKs) and nothing afterwards *)
 Theorem C09_exactly_one_final : forall srv s r mid m post,
   Inv s -> fresh s (Req r :: mid ++ Done (r_id r) :: post) ->
-  not_raw srv r -> final_message srv r = Some m ->
+  finalising srv r -> final_message srv r = Some m ->
   Forall (fun ev => match ev with
                     | Req r' => key_eqb (key_of r') (key_of r) = false
                     | Done j => j <> r_id r
@@ -111,7 +150,7 @@ Print Assumptions C09_exactly_one_final.
 (* isolation, content: the response handed to the message layer when a handler finishes is a function of that request
    and the site alone — independent of everything else in the state *)
 Theorem C09_done_sends_own : forall srv s id e, Inv s -> find_by_id id (s_incoming s) = Some e -> e_finished e = false ->
-  not_raw srv (e_req e) ->
+  finalising srv (e_req e) ->
   step_sends srv s (Done id) = match final_message srv (e_req e) with Some m => [(id, m, true)] | None => [] end.
 Proof. exact done_sends_own. Qed.
 Print Assumptions C09_done_sends_own.
@@ -152,36 +191,47 @@ Print Assumptions C09_tm_fill_spec.
 (* ================================================================ non-vacuity *)
 (* the former finding (fixed in /repo by abf5426): an error renderer returning a str is answered by a bare 5.00 *)
 Definition garbage_request : request :=
-  {| r_id := 0; r_remote := 0; r_token := [1]; r_mid := 7; r_con := true; r_code := GET; r_path := [1]; r_nr := None;
+  {| r_id := 0; r_remote := 0; r_token := [1]; r_mid := 7; r_con := true; r_code := GET; r_path := [1]; r_nr := None; r_obs := None;
      r_slow := false; r_outcome := Raise_ (ERenderable (TMReturn VOther)) |}.
 Example C09_failing_renderer_example :
   run_script (Some [([1], Plain [GET; POST; PUT; DELETE; FETCH; PATCH; iPATCH])]) 100 [Req garbage_request; Tick 100000]
   = ([([mk_wire garbage_request T_ACK 7 bare_500], [LogRenderFailed], 0); ([], [], 0)], (0, 0, 0, 0)).
 Proof. vm_compute. reflexivity. Qed.
+(* Observe=0 on an accepting observable resource with a successful handler: the first response is a non-final 2.05 with
+   Observe:0 and the request stays registered; on a declining one: the same response, final, without Observe (and the
+   AttributeError of the finally block is logged as discarded) *)
+Example C09_observable_example :
+  let r := obs_request (Return (VMsg {| m_code := None; m_payload := [104]; m_cf := None; m_nr := None; m_obs := None |})) in
+  establishes [GET; FETCH] OAccept r = true /\
+  map (fun o => (map (fun w => (w_code w, w_obs w)) (fst (fst o)), snd (fst o))) (fst (run_script (Some (obs_site OAccept)) 100 [Req r])) = [([(69, Some 0)], [])] /\
+  snd (run_script (Some (obs_site OAccept)) 100 [Req r]) = (1, 0, 0, 0) /\
+  map (fun o => (map (fun w => (w_code w, w_obs w)) (fst (fst o)), snd (fst o))) (fst (run_script (Some (obs_site ODecline)) 100 [Req r])) = [([(69, None)], [LogDiscarded])] /\
+  snd (run_script (Some (obs_site ODecline)) 100 [Req r]) = (0, 0, 0, 0).
+Proof. cbv zeta. repeat split; vm_compute; reflexivity. Qed.
 (* an unknown path asked with No-Response 8 (suppress 4.xx): only the empty ACK goes out *)
 Example C09_no_response_error_example :
   run_script (Some [([1], Plain [GET])]) 100
-    [Req {| r_id := 0; r_remote := 0; r_token := [1]; r_mid := 7; r_con := true; r_code := GET; r_path := [9]; r_nr := Some 8;
+    [Req {| r_id := 0; r_remote := 0; r_token := [1]; r_mid := 7; r_con := true; r_code := GET; r_path := [9]; r_nr := Some 8; r_obs := None;
             r_slow := false; r_outcome := Return VNone |}]
   = ([([empty_ack 0 7], [], 0)], (0, 0, 0, 0)).
 Proof. vm_compute. reflexivity. Qed.
 Definition ex_site : site := [([1], Plain [GET; POST; PUT; DELETE; FETCH; PATCH; iPATCH]); ([2], Plain [GET])].
 Definition ex_req (id tok : Z) (o : outcome) : request :=
   {| r_id := id; r_remote := 0; r_token := [tok]; r_mid := 100 + id; r_con := true; r_code := GET; r_path := [1];
-     r_nr := None; r_slow := true; r_outcome := o |}.
+     r_nr := None; r_obs := None; r_slow := true; r_outcome := o |}.
 Example C09_handled_nonvacuous :
-  handled ex_site (ex_req 0 1 (Return (VMsg {| m_code := None; m_payload := [104]; m_cf := None; m_nr := None |}))) [GET; POST; PUT; DELETE; FETCH; PATCH; iPATCH]
-  /\ yields_bare_500 (Raise_ EOther) /\ not_raw (Some ex_site) (ex_req 0 1 (Raise_ EOther)).
-Proof. split; [repeat split|]. split; [left; reflexivity|cbn; discriminate]. Qed.
+  handled ex_site (ex_req 0 1 (Return (VMsg {| m_code := None; m_payload := [104]; m_cf := None; m_nr := None; m_obs := None |}))) [GET; POST; PUT; DELETE; FETCH; PATCH; iPATCH]
+  /\ yields_bare_500 (Raise_ EOther) /\ finalising (Some ex_site) (ex_req 0 1 (Raise_ EOther)).
+Proof. split; [repeat split; reflexivity|]. split; [left; reflexivity|cbn; exact I]. Qed.
 (* three requests in flight at once, the middle one failing, the first completing after its empty ACK: each gets exactly its own *)
 Example C09_concurrent_example :
-  let a := ex_req 0 1 (Return (VMsg {| m_code := None; m_payload := [104]; m_cf := None; m_nr := None |})) in
+  let a := ex_req 0 1 (Return (VMsg {| m_code := None; m_payload := [104]; m_cf := None; m_nr := None; m_obs := None |})) in
   let b := ex_req 1 2 (Raise_ EOther) in
   let c := ex_req 2 3 (Raise_ (cre E_BadRequest (CText [120]))) in
   let evs := [Req a; Req b; Req c; Tick 100000; Done 1; Done 0; AckFrom 0; Done 2; AckFrom 0; AckFrom 0] in
   Inv (init_state 500) /\ fresh (init_state 500) evs /\
   map (fun id => finals_for id (run_sends (Some ex_site) (init_state 500) evs)) [0; 1; 2]
-  = [[{| m_code := Some 69; m_payload := [104]; m_cf := None; m_nr := None |}]; [bare_500]; [mk_msg 128 [120]]] /\
+  = [[{| m_code := Some 69; m_payload := [104]; m_cf := None; m_nr := None; m_obs := None |}]; [bare_500]; [mk_msg 128 [120]]] /\
   map (fun o => map w_code (fst (fst o))) (fst (run_script (Some ex_site) 500 evs))
   = [[]; []; []; [0; 0; 0]; [160]; []; [69]; []; [128]; []].
 Proof.
